@@ -111,13 +111,13 @@ Qed.
 (* the index-map updates keep a model closed *)
 Lemma mok_add_identifiable w path e x : e < w_next w -> model_ok w x -> model_ok w (set_idents x (assoc_insert path e (m_idents x))).
 Proof.
-  intros L MO. apply model_ok_iff in MO as (A & B & D). apply model_ok_iff. cbn.
-  split; [exact A|]. split; [apply assoc_insert_ok; auto|exact D].
+  intros L MO. apply model_ok_iff in MO as (A & D). apply model_ok_iff. cbn.
+  split; [exact A|exact D].
 Qed.
 Lemma mok_remove_identifiable w path x : model_ok w x -> model_ok w (set_idents x (assoc_swap_remove path (m_idents x))).
 Proof.
-  intros MO. apply model_ok_iff in MO as (A & B & D). apply model_ok_iff. cbn.
-  split; [exact A|]. split; [apply assoc_swap_remove_ok; auto|exact D].
+  intros MO. apply model_ok_iff in MO as (A & D). apply model_ok_iff. cbn.
+  split; [exact A|exact D].
 Qed.
 Lemma mok_fix_identifiables w a b x : model_ok w x ->
   model_ok w (set_idents x (fold_left (fun idents key =>
@@ -132,8 +132,8 @@ Lemma mok_fix_identifiables w a b x : model_ok w x ->
          | None => idents
          end) (map fst (m_idents x)) (m_idents x))).
 Proof.
-  intros MO. apply model_ok_iff in MO as (A & B & D). apply model_ok_iff. cbn.
-  split; [exact A|]. split; [apply fix_identifiables_fold_ok; exact B|exact D].
+  intros MO. apply model_ok_iff in MO as (A & D). apply model_ok_iff. cbn.
+  split; [exact A|exact D].
 Qed.
 Lemma mok_add_reference_origin w r e x : e < w_next w -> model_ok w x ->
   model_ok w (set_origins x (match assoc_get r (m_origins x) with
@@ -141,8 +141,8 @@ Lemma mok_add_reference_origin w r e x : e < w_next w -> model_ok w x ->
                              | None => m_origins x ++ [(r, [e])]
                              end)).
 Proof.
-  intros L MO. apply model_ok_iff in MO as (A & B & D). apply model_ok_iff. cbn.
-  split; [exact A|]. split; [exact B|].
+  intros L MO. apply model_ok_iff in MO as (A & D). apply model_ok_iff. cbn.
+  split; [exact A|].
   destruct (assoc_get r (m_origins x)) as [l|] eqn:E.
   - apply assoc_insert_ok; [exact D|]. apply Forall_app. split; [eapply assoc_get_ok; eauto|repeat constructor; exact L].
   - apply vals_ok_app; [exact D|]. apply vals_ok_one. repeat constructor. exact L.
@@ -154,8 +154,8 @@ Lemma mok_remove_reference_origin w r e x : model_ok w x ->
                    | None => m_origins x
                    end)).
 Proof.
-  intros MO. apply model_ok_iff in MO as (A & B & D). apply model_ok_iff. cbn.
-  split; [exact A|]. split; [exact B|].
+  intros MO. apply model_ok_iff in MO as (A & D). apply model_ok_iff. cbn.
+  split; [exact A|].
   destruct (assoc_get r (m_origins x)) as [l|] eqn:E; [|exact D]. cbv zeta.
   destruct (is_empty (remove_first e l)); [apply assoc_remove_ok; exact D|].
   apply assoc_insert_ok; [exact D|]. apply remove_first_ok. eapply assoc_get_ok; eauto.
@@ -176,8 +176,8 @@ Lemma mok_fix_reference_origins w old_ref new_ref e x : e < w_next w -> model_ok
                    | None => o1 ++ [(new_ref, [e])]
                    end)).
 Proof.
-  intros L MO. apply model_ok_iff in MO as (A & B & D). cbv zeta. apply model_ok_iff. cbn.
-  split; [exact A|]. split; [exact B|].
+  intros L MO. apply model_ok_iff in MO as (A & D). cbv zeta. apply model_ok_iff. cbn.
+  split; [exact A|].
   set (o1 := match assoc_get old_ref (m_origins x) with Some l => _ | None => _ end).
   assert (O1 : vals_ok (fun l => Forall (fun e => e < w_next w) l) o1).
   { unfold o1. destruct (assoc_get old_ref (m_origins x)) as [l|] eqn:E; [|exact D].
@@ -194,25 +194,25 @@ Definition keepN (w : world) : unit -> world -> Prop := fun _ w' => sameP w w' /
 
 Lemma good_add_identifiable w m path e : Closed w -> m < N.of_nat (List.length (w_models w)) -> e < w_next w ->
   runsQ (add_identifiable m path e) w (good w (keepN w)).
-Proof. intros C L Le. unfold add_identifiable. apply good_modify_model; auto. intros x. apply mok_add_identifiable; auto. Qed.
+Proof. intros C L Le. unfold add_identifiable. apply good_modify_model; [exact C|exact L|intros x MO; apply (mok_add_identifiable w path e x Le MO)]. Qed.
 Lemma good_remove_identifiable w m path : Closed w -> m < N.of_nat (List.length (w_models w)) ->
   runsQ (remove_identifiable m path) w (good w (keepN w)).
-Proof. intros C L. unfold remove_identifiable. apply good_modify_model; auto. intros x. apply mok_remove_identifiable. Qed.
+Proof. intros C L. unfold remove_identifiable. apply good_modify_model; [exact C|exact L|intros x MO; apply mok_remove_identifiable; auto]. Qed.
 Lemma good_fix_identifiables w m a b : Closed w -> m < N.of_nat (List.length (w_models w)) ->
   runsQ (fix_identifiables m a b) w (good w (keepN w)).
-Proof. intros C L. unfold fix_identifiables. apply good_modify_model; auto. intros x. apply mok_fix_identifiables. Qed.
+Proof. intros C L. unfold fix_identifiables. apply good_modify_model; [exact C|exact L|intros x MO; apply mok_fix_identifiables; auto]. Qed.
 Lemma good_add_reference_origin w m r e : Closed w -> m < N.of_nat (List.length (w_models w)) -> e < w_next w ->
   runsQ (add_reference_origin m r e) w (good w (keepN w)).
-Proof. intros C L Le. unfold add_reference_origin. apply good_modify_model; auto. intros x. apply mok_add_reference_origin; auto. Qed.
+Proof. intros C L Le. unfold add_reference_origin. apply good_modify_model; [exact C|exact L|intros x MO; apply mok_add_reference_origin; auto]. Qed.
 Lemma good_remove_reference_origin w m r e : Closed w -> m < N.of_nat (List.length (w_models w)) ->
   runsQ (remove_reference_origin m r e) w (good w (keepN w)).
-Proof. intros C L. unfold remove_reference_origin. apply good_modify_model; auto. intros x. apply mok_remove_reference_origin. Qed.
+Proof. intros C L. unfold remove_reference_origin. apply good_modify_model; [exact C|exact L|intros x MO; apply mok_remove_reference_origin; auto]. Qed.
 Lemma good_fix_reference_origins w m a b e : Closed w -> m < N.of_nat (List.length (w_models w)) -> e < w_next w ->
   runsQ (fix_reference_origins m a b e) w (good w (keepN w)).
 Proof.
   intros C L Le. unfold fix_reference_origins. destruct (bytes_eqb a b).
   - apply good_ret; auto. split; [apply sameP_refl|]. split; reflexivity.
-  - apply good_modify_model; auto. intros x. apply mok_fix_reference_origins; auto.
+  - apply good_modify_model; [exact C|exact L|intros x MO; apply mok_fix_reference_origins; auto].
 Qed.
 
 (* ---------- ElementRaw::set_character_data ---------- *)
